@@ -141,6 +141,36 @@ def gen_trees(tier):
                         clab, cnode, _ = build(c, {})
                         mlab, mnode, _ = build(o, {p: (clab, cnode)})
                         out.append(build(g, {gp: (mlab, mnode)}))
+    out += random_trees(tier)
+    return out
+
+
+def random_trees(tier, seed=None):
+    """Random well-typed trees of depth 4-5 (deterministic in VERIF_SEED)."""
+    import os
+    import random
+
+    seed = int(os.environ.get("VERIF_SEED", "0") or 0) if seed is None else seed
+    r = random.Random(seed * 7 + 3)
+    ops = operators()
+    by_kind = {}
+    for nme, (k, argk, ctor) in ops.items():
+        by_kind.setdefault(k, []).append(nme)
+
+    def mk(kind, depth):
+        if depth == 0 or r.random() < 0.15:
+            lab, nd = r.choice(leaves(kind))
+            return lab, nd
+        o = r.choice(by_kind[kind])
+        k, argk, ctor = ops[o]
+        subs = [mk(ak, depth - 1) for ak in argk]
+        return f"{o}({', '.join(s_[0] for s_ in subs)})", ctor(*[s_[1] for s_ in subs])
+
+    out = []
+    for _ in range(400 if tier == "quick" else 4000):
+        kind = r.choice(["f", "f", "f", "b"])
+        lab, nd = mk(kind, r.choice([3, 4, 5]))
+        out.append((lab, nd, kind))
     return out
 
 
@@ -332,7 +362,7 @@ def parse_py_expr(text):
 def decide_equal(v1, v2):
     """z3: exists leaves with different non-NaN values?  returns (verdict, model text)."""
     s = z3.Solver()
-    s.set("timeout", 30000)
+    s.set("timeout", 8000)
     if v1[0] == "b" or v2[0] == "b":
         s.add(as_bool(v1) != as_bool(v2))
     elif v1[0] == "i" and v2[0] == "i":
@@ -340,6 +370,9 @@ def decide_equal(v1, v2):
     else:
         x, y = as_fp(v1), as_fp(v2)
         if x.eq(y):
+            return "unsat(identical-term)", None
+        xs, ys = z3.simplify(x), z3.simplify(y)  # constant folding (e.g. -(2.5) vs the literal -2.5)
+        if xs.eq(ys):
             return "unsat(identical-term)", None
         s.add(z3.Not(z3.fpIsNaN(x)), z3.Not(z3.fpIsNaN(y)), z3.Not(z3.fpEQ(x, y)))
     if (v1[0] == "b" or v2[0] == "b") and as_bool(v1).eq(as_bool(v2)):
